@@ -862,3 +862,280 @@ Proof.
   rewrite (quiet_ri _ _ (quiet_reading _ _)), (quiet_fbi _ _ (quiet_reading _ _)), (quiet_ret _ _ (quiet_reading _ _)).
   simpl. lia.
 Qed.
+
+(* ================================================================== *)
+(* 9. Run(ctx, f) = Execute(ctx, f, nil)                                *)
+(* ================================================================== *)
+
+(* Forget how a call was entered, keeping only whether it has a usable fallback.
+   The model commutes with this erasure and the observations are unchanged. *)
+Definition erase_call (c : call) : call :=
+  {| c_has_run := c_has_run c; c_has_fb := has_fb_eff c; c_entry := EExecute; c_deadline := c_deadline c;
+     c_done := c_done c; c_allow := c_allow c; c_prevent := c_prevent c |}.
+Definition erase_cs (cs : callst) : callst :=
+  {| cs_id := cs_id cs; cs_call := erase_call (cs_call cs); cs_phase := cs_phase cs; cs_done := cs_done cs |}.
+Definition erase_state (s : state) : state := set_calls s (map erase_cs (calls s)).
+Definition erase_ev (ev : event) : event :=
+  match ev with Begin id c => Begin id (erase_call c) | _ => ev end.
+
+Lemma find_map {A B} (g : A -> B) (p : B -> bool) l : find p (map g l) = option_map g (find (fun x => p (g x)) l).
+Proof. induction l as [|x l IH]; [reflexivity|]. simpl. destruct (p (g x)); [reflexivity | exact IH]. Qed.
+Lemma filter_map_comm {A B} (g : A -> B) (p : B -> bool) l : filter p (map g l) = map g (filter (fun x => p (g x)) l).
+Proof. induction l as [|x l IH]; [reflexivity|]. simpl. destruct (p (g x)); simpl; rewrite IH; reflexivity. Qed.
+
+Lemma find_erase id s : find_call id (erase_state s) = option_map erase_cs (find_call id s).
+Proof. unfold find_call, erase_state; cbn [calls set_calls]. apply find_map. Qed.
+Lemma drop_erase id s : drop_call id (erase_state s) = erase_state (drop_call id s).
+Proof.
+  unfold drop_call, erase_state; cbn [calls set_calls cfg flag cmds fbs opn cls clock].
+  rewrite filter_map_comm. reflexivity.
+Qed.
+Lemma put_erase c s : put_call (erase_cs c) (erase_state s) = erase_state (put_call c s).
+Proof.
+  unfold put_call, erase_state; cbn [calls set_calls cfg flag cmds fbs opn cls clock map].
+  rewrite filter_map_comm. reflexivity.
+Qed.
+
+(* f commutes with the erasure *)
+Definition commutes (f : state -> state * list obs) : Prop :=
+  forall s, f (erase_state s) = (erase_state (fst (f s)), snd (f s)).
+
+Lemma emit_run_comm st k t d : commutes (emit_run st k t d).
+Proof. intros s. reflexivity. Qed.
+Lemma emit_circ_comm st k t : commutes (emit_circ st k t).
+Proof.
+  intros s. unfold emit_circ. cbn [cls erase_state set_calls].
+  destruct (closer_circ t (cls s)) as [c1 timers]. reflexivity.
+Qed.
+Lemma is_open_erase s : is_open (erase_state s) = is_open s.
+Proof. reflexivity. Qed.
+
+Lemma open_circuit_comm st now : commutes (open_circuit st now).
+Proof.
+  intros s. unfold open_circuit. rewrite is_open_erase. cbn [cfg erase_state set_calls].
+  destruct (l_forced_closed (cfg s)); [reflexivity|]. destruct (is_open s); [reflexivity|].
+  change (set_calls s (map erase_cs (calls s))) with (erase_state s). rewrite emit_circ_comm.
+  destruct (emit_circ st Opened now s) as [s1 o]. reflexivity.
+Qed.
+
+Lemma close_circuit_comm st now force ans : commutes (close_circuit st now force ans).
+Proof.
+  intros s. unfold close_circuit. rewrite is_open_erase. cbn [cfg cls erase_state set_calls].
+  destruct (negb (is_open s)); [reflexivity|]. destruct (l_force_open (cfg s)); [reflexivity|].
+  change (set_calls s (map erase_cs (calls s))) with (erase_state s).
+  destruct force; [rewrite emit_circ_comm; destruct (emit_circ st Closed now s) as [s1 o]; reflexivity|].
+  destruct (closer_should_close ans (cls s)); [|reflexivity].
+  rewrite emit_circ_comm; destruct (emit_circ st Closed now s) as [s1 o]; reflexivity.
+Qed.
+
+Lemma attempt_to_open_comm st now ans : commutes (attempt_to_open st now ans).
+Proof.
+  intros s. unfold attempt_to_open. rewrite is_open_erase. cbn [cfg cls opn erase_state set_calls].
+  destruct (l_forced_closed (cfg s)); [reflexivity|]. destruct (is_open s); [reflexivity|].
+  destruct (opener_should_open now ans (opn s)) as [o1 b].
+  destruct b; [|reflexivity].
+  change (set_logic (erase_state s) o1 (cls s)) with (erase_state (set_logic s o1 (cls s))).
+  rewrite open_circuit_comm. destruct (open_circuit st now (set_logic s o1 (cls s))) as [s2 o]. reflexivity.
+Qed.
+
+Lemma run_fanout_comm st e r now dur to intr : commutes (run_fanout st e r now dur to intr).
+Proof.
+  intros s. unfold run_fanout.
+  destruct (res_is_bad r); [apply emit_run_comm|].
+  destruct to.
+  { rewrite emit_run_comm. destruct (emit_run st KTimeout now (Some dur) s) as [sa oa]. cbn [fst snd].
+    rewrite is_open_erase. destruct (negb (is_open sa)); [|reflexivity].
+    rewrite attempt_to_open_comm. destruct (attempt_to_open st now (e_should_open e) sa); reflexivity. }
+  destruct intr; [apply emit_run_comm|].
+  destruct (negb (res_is_nil r)).
+  { rewrite emit_run_comm. destruct (emit_run st KFailure now (Some dur) s) as [sa oa]. cbn [fst snd].
+    rewrite is_open_erase. destruct (negb (is_open sa)); [|reflexivity].
+    rewrite attempt_to_open_comm. destruct (attempt_to_open st now (e_should_open e) sa); reflexivity. }
+  rewrite emit_run_comm. destruct (emit_run st KSuccess now (Some dur) s) as [sa oa]. cbn [fst snd].
+  rewrite is_open_erase. destruct (is_open sa); [|reflexivity].
+  rewrite close_circuit_comm. destruct (close_circuit st now false (e_should_close e) sa); reflexivity.
+Qed.
+
+Lemma has_fb_eff_erase c : has_fb_eff (erase_call c) = has_fb_eff c.
+Proof. reflexivity. Qed.
+
+Lemma fallback_stage_comm st cs err ran derived s :
+  fallback_stage st (erase_cs cs) err ran derived (erase_state s) =
+  (erase_state (fst (fallback_stage st cs err ran derived s)), snd (fallback_stage st cs err ran derived s)).
+Proof.
+  unfold fallback_stage. cbn [cs_id cs_call cs_done erase_cs]. rewrite has_fb_eff_erase.
+  cbn [cfg fbs clock erase_state set_calls].
+  change (set_calls s (map erase_cs (calls s))) with (erase_state s).
+  destruct (negb (has_fb_eff (cs_call cs)) || l_fb_disabled (cfg s)).
+  { cbn [fst snd]. rewrite drop_erase. reflexivity. }
+  destruct ((0 <=? l_fb_max (cfg s)) && (l_fb_max (cfg s) <? fbs s + 1)).
+  { cbn [fst snd]. rewrite drop_erase. reflexivity. }
+  cbn [fst snd]. rewrite <- put_erase. reflexivity.
+Qed.
+
+(* Begin after the Allow consultation, verbatim *)
+Definition begin_tail (st : static) (id : nat) (c : call) (now : Z) (p : state * bool * list obs) : state * list obs :=
+  let cs0 := {| cs_id := id; cs_call := c; cs_phase := PPass; cs_done := c_done c |} in
+  let '(s1, admitted, o1) := p in
+  if negb admitted then
+    let (s2, o2) := emit_run st KShort now None s1 in
+    let (s3, o3) := fallback_stage st cs0 VCircuitOpen false false s2 in
+    (s3, o1 ++ o2 ++ o3)
+  else if opener_prevent (c_prevent c) (opn s1) then
+    let (s3, o3) := fallback_stage st cs0 VCircuitOpen false false s1 in
+    (s3, o1 ++ OAsked QPrevent now :: o3)
+  else
+    let n := cmds s1 + 1 in
+    if (0 <=? l_max (cfg s1)) && (l_max (cfg s1) <? n) then
+      let (s2, o2) := emit_run st KReject now None s1 in
+      let (s3, o3) := fallback_stage st cs0 VThrottled false false s2 in
+      (s3, o1 ++ OAsked QPrevent now :: o2 ++ o3)
+    else
+      let derived := 0 <? l_timeout (cfg s1) in
+      let expected := if derived then Some (now + l_timeout (cfg s1)) else None in
+      let dl := if derived then Some (min_deadline (c_deadline c) (now + l_timeout (cfg s1))) else c_deadline c in
+      (put_call {| cs_id := id; cs_call := c; cs_phase := PRun now expected derived; cs_done := c_done c |}
+                (set_cmds s1 n),
+       o1 ++ [OAsked QPrevent now; ORunInvoked id derived dl]).
+
+Lemma begin_call_tail st id c s :
+  enabled st s -> c_has_run c = true ->
+  begin_call st id c s =
+  begin_tail st id c (clock s)
+    (if negb (is_open s) then (s, true, [])
+     else if l_force_open (cfg s) then (s, false, [])
+     else let '(cl1, b, timers) := closer_allow (clock s) (c_allow c) (cls s) in
+          (set_logic s (opn s) cl1, b, OAsked QAllow (clock s) :: map OTimer timers)).
+Proof. intros [Hm Hd] Hr. unfold begin_call. rewrite Hm, Hd, Hr. reflexivity. Qed.
+
+Lemma begin_tail_comm st id c now s1 adm o1 :
+  begin_tail st id (erase_call c) now (erase_state s1, adm, o1) =
+  (erase_state (fst (begin_tail st id c now (s1, adm, o1))), snd (begin_tail st id c now (s1, adm, o1))).
+Proof.
+  unfold begin_tail. cbv zeta. cbn [c_done c_prevent c_deadline erase_call].
+  change {| cs_id := id; cs_call := erase_call c; cs_phase := PPass; cs_done := c_done c |}
+    with (erase_cs (cs_pass id c)).
+  change {| cs_id := id; cs_call := c; cs_phase := PPass; cs_done := c_done c |} with (cs_pass id c).
+  destruct adm; cbn [negb].
+  2:{ rewrite emit_run_comm. destruct (emit_run st KShort now None s1) as [s2 o2]. cbn [fst snd].
+      rewrite fallback_stage_comm. destruct (fallback_stage st (cs_pass id c) VCircuitOpen false false s2); reflexivity. }
+  cbn [opn cfg cmds erase_state set_calls]. change (set_calls s1 (map erase_cs (calls s1))) with (erase_state s1).
+  destruct (opener_prevent (c_prevent c) (opn s1)).
+  { rewrite fallback_stage_comm. destruct (fallback_stage st (cs_pass id c) VCircuitOpen false false s1); reflexivity. }
+  destruct ((0 <=? l_max (cfg s1)) && (l_max (cfg s1) <? cmds s1 + 1)).
+  { rewrite emit_run_comm. destruct (emit_run st KReject now None s1) as [s2 o2]. cbn [fst snd].
+      rewrite fallback_stage_comm. destruct (fallback_stage st (cs_pass id c) VThrottled false false s2); reflexivity. }
+  cbn [fst snd]. rewrite <- put_erase. reflexivity.
+Qed.
+
+Lemma begin_call_comm st id c s :
+  begin_call st id (erase_call c) (erase_state s) =
+  (erase_state (fst (begin_call st id c s)), snd (begin_call st id c s)).
+Proof.
+  destruct (mode_cases st s) as [Hp | He].
+  { assert (Hp' : passthrough st (erase_state s)) by exact Hp.
+    rewrite (begin_call_pass st id c s Hp), (begin_call_pass st id (erase_call c) (erase_state s) Hp').
+    cbn [fst snd]. rewrite <- put_erase. reflexivity. }
+  assert (He' : enabled st (erase_state s)) by exact He.
+  destruct (c_has_run c) eqn:Hr.
+  2:{ rewrite (begin_call_nil st id c s He Hr), (begin_call_nil st id (erase_call c) (erase_state s) He' Hr). reflexivity. }
+  rewrite (begin_call_tail st id c s He Hr), (begin_call_tail st id (erase_call c) (erase_state s) He' Hr).
+  rewrite is_open_erase. cbn [clock cfg cls opn c_allow erase_call erase_state set_calls].
+  change (set_calls s (map erase_cs (calls s))) with (erase_state s).
+  destruct (negb (is_open s)); [apply begin_tail_comm|].
+  destruct (l_force_open (cfg s)); [apply begin_tail_comm|].
+  destruct (closer_allow (clock s) (c_allow c) (cls s)) as [[cl1 b] timers].
+  change (set_logic (erase_state s) (opn s) cl1) with (erase_state (set_logic s (opn s) cl1)).
+  apply begin_tail_comm.
+Qed.
+
+Lemma end_run_comm st id e s :
+  end_run st id e (erase_state s) = (erase_state (fst (end_run st id e s)), snd (end_run st id e s)).
+Proof.
+  destruct (find_call id s) as [cs|] eqn:Hf.
+  2:{ unfold end_run. rewrite find_erase, Hf. reflexivity. }
+  assert (Hf' : find_call id (erase_state s) = Some (erase_cs cs)) by (rewrite find_erase, Hf; reflexivity).
+  destruct (cs_phase cs) as [start expected derived| |fbstart ran derived] eqn:Hp.
+  3:{ unfold end_run. rewrite Hf', Hf. cbn [cs_phase erase_cs]. rewrite Hp. reflexivity. }
+  2:{ unfold end_run. rewrite Hf', Hf. cbn [cs_phase cs_done erase_cs]. rewrite Hp. cbn [fst snd].
+      rewrite drop_erase. reflexivity. }
+  assert (Hp' : cs_phase (erase_cs cs) = PRun start expected derived) by exact Hp.
+  destruct (res_panics (e_res e)) eqn:Hr.
+  { destruct (e_res e) as [| | | |v] eqn:Er; try discriminate.
+    rewrite (end_run_panic st id e s cs start expected derived v Hf Hp Er).
+    rewrite (end_run_panic st id e (erase_state s) (erase_cs cs) start expected derived v Hf' Hp' Er).
+    cbn [fst snd]. change (set_cmds (erase_state s) (cmds (erase_state s) - 1)) with (erase_state (set_cmds s (cmds s - 1))).
+    rewrite drop_erase. reflexivity. }
+  rewrite (end_run_PRun st id e s cs start expected derived Hf Hp Hr).
+  rewrite (end_run_PRun st id e (erase_state s) (erase_cs cs) start expected derived Hf' Hp' Hr).
+  cbv zeta. cbn [clock cfg cs_done erase_cs erase_state set_calls].
+  change (set_calls s (map erase_cs (calls s))) with (erase_state s).
+  rewrite run_fanout_comm.
+  match goal with |- context [run_fanout ?a ?b ?c ?d ?e ?f ?g s] => destruct (run_fanout a b c d e f g s) as [s1 o1] end.
+  cbn [fst snd].
+  change (set_cmds (erase_state s1) (cmds (erase_state s1) - 1)) with (erase_state (set_cmds s1 (cmds s1 - 1))).
+  unfold run_after. cbn [cs_done erase_cs].
+  destruct (res_is_nil (e_res e)); [cbn [fst snd]; rewrite drop_erase; reflexivity|].
+  destruct (res_is_bad (e_res e)); [cbn [fst snd]; rewrite drop_erase; reflexivity|].
+  rewrite fallback_stage_comm.
+  destruct (fallback_stage st cs (res_val (e_res e)) true derived (set_cmds s1 (cmds s1 - 1))); reflexivity.
+Qed.
+
+Lemma end_fb_comm st id f s :
+  end_fb st id f (erase_state s) = (erase_state (fst (end_fb st id f s)), snd (end_fb st id f s)).
+Proof.
+  unfold end_fb. rewrite find_erase. destruct (find_call id s) as [cs|]; [|reflexivity].
+  cbn [option_map cs_phase cs_done erase_cs]. destruct (cs_phase cs); try reflexivity.
+  change (set_fbs (erase_state s) (fbs (erase_state s) - 1)) with (erase_state (set_fbs s (fbs s - 1))).
+  rewrite drop_erase. cbn [clock erase_state set_calls]. destruct f; reflexivity.
+Qed.
+
+Lemma cancel_comm id s : cancel_call id (erase_state s) = erase_state (cancel_call id s).
+Proof.
+  unfold cancel_call. rewrite find_erase. destruct (find_call id s) as [cs|]; [|reflexivity].
+  cbn [option_map]. rewrite <- put_erase. reflexivity.
+Qed.
+
+Lemma step_core_comm st s ev :
+  step_core st (erase_state s) (erase_ev ev) = (erase_state (fst (step_core st s ev)), snd (step_core st s ev)).
+Proof.
+  destruct ev; cbn [step_core erase_ev fst snd].
+  - apply begin_call_comm.
+  - apply end_run_comm.
+  - apply end_fb_comm.
+  - rewrite cancel_comm. reflexivity.
+  - apply open_circuit_comm.
+  - apply close_circuit_comm.
+  - reflexivity.
+  - reflexivity.
+  - reflexivity.
+Qed.
+
+Lemma step_comm st s ev :
+  step st (erase_state s) (erase_ev ev) = (erase_state (fst (step st s ev)), snd (step st s ev)).
+Proof.
+  unfold step. rewrite step_core_comm. destruct (step_core st s ev) as [s1 o]. reflexivity.
+Qed.
+
+Lemma trace_erase st : forall h s,
+  map snd (trace_from st (erase_state s) (map erase_ev h)) = map snd (trace_from st s h).
+Proof.
+  induction h as [|ev h IH]; intros s; [reflexivity|].
+  cbn [map trace_from]. rewrite step_comm. destruct (step st s ev) as [s1 o]. cbn [fst snd map].
+  rewrite IH. reflexivity.
+Qed.
+
+Definition as_exec_nil (c : call) : call :=
+  {| c_has_run := c_has_run c; c_has_fb := false; c_entry := EExecute; c_deadline := c_deadline c;
+     c_done := c_done c; c_allow := c_allow c; c_prevent := c_prevent c |}.
+
+Lemma run_is_execute_nil (st : static) : forall s id c h2,
+  c_entry c = ERun ->
+  map snd (trace_from st s (Begin id c :: h2)) = map snd (trace_from st s (Begin id (as_exec_nil c) :: h2)).
+Proof.
+  intros s id c h2 He.
+  rewrite <- (trace_erase st (Begin id c :: h2) s), <- (trace_erase st (Begin id (as_exec_nil c) :: h2) s).
+  cbn [map erase_ev].
+  replace (erase_call (as_exec_nil c)) with (erase_call c); [reflexivity|].
+  unfold erase_call, as_exec_nil, has_fb_eff. cbn. rewrite He. reflexivity.
+Qed.
